@@ -882,6 +882,11 @@ func (bucket *TypedBucket) PutMap(name string, value map[string]interface{}, che
 			return bucket
 		}
 		for key, val := range value {
+			if key == ListSizeKeyName {
+				// a sub-bucket holding an int32 under this key is read back as a list
+				tagsBucket.SetError(errors.Errorf("map key %v is reserved", key))
+				break
+			}
 			tagsBucket.setMarshaled(key, val, allowNested)
 		}
 		bucket.Err = tagsBucket.Err
